@@ -27,3 +27,15 @@ Example C17_nonvacuous :
     resolve c [100;111;105;58;49;48;46;49;47;97;58;98]%N = Redirect302 [104;47;49;48;46;49;47;97;58;98]%N /\     (* doi:10.1/a:b *)
     resolve c [68;58;49]%N = Redirect302 [104;47;49]%N /\ resolve c [120;58;49]%N = Status 422.
 Proof. eexists. split; [vm_compute; reflexivity|]. vm_compute. auto. Qed.
+
+(* the statement of the property itself: whatever converter.expand answers on the requested string, the response is a 302 to
+   that URI, or 422 when expand gives None -- this is what the run compares both frameworks with, using the implementation's
+   own expand answers *)
+Theorem C17_relative : forall d rs c, mk_conv true d rs = Val c -> forall rest e, request_ok d rest = true ->
+  expand c rest false false = Val e -> vresponse (resolve c rest) = rel_response d rest e.
+Proof. exact resolve_relative. Qed.
+Print Assumptions C17_relative.
+Theorem C17_P_model : forall k, valid_w k = true ->
+  P_C17 k (VList (map (fun pe => let r := rel_response (wc_delim k) (fst pe) (snd pe) in VList [r; r]) (combine (wc_paths k) (wc_expands k)))) = true.
+Proof. exact P_C17_model. Qed.
+Print Assumptions C17_P_model.
